@@ -1,10 +1,26 @@
 """C06 - Every stochastic trajectory is a feasible reaction path."""
-CONTRACT_MODULES = ['simulator_safe', 'simulator_interfaces', 'types_propensities', 'random_']
-SPEC_MODULES = ['functions']
+import os
+CONTRACT_MODULES = ['simulator_safe', 'simulator_interfaces', 'types_propensities', 'random_', 'simulator_ssa', 'simulator_delay',
+                    'simulator_volume', 'simulator_queue']
+SPEC_MODULES = ['functions', 'lemmas_lattice', 'lemmas_prob']
 LEVEL = 'proof'
-ASSUMPTIONS = []
+ASSUMPTIONS = [
+    'whole-trajectory claims (lattice membership of every row, conservation, persistence of dead states) follow from the per-iteration step relations by induction over iterations; the induction itself is an argument over the discharged step clauses and lemmas, not a mechanised proof',
+    'mass-action non-negativity is stated for networks in which a reaction removes at most the multiplicity its rate law counts; delayed consumption is outside it (DESIGN C06)',
+    'integer stoichiometry; doubles as reals',
+]
 TRUSTED = []
-EXPLANATION = 'work in progress'
-LEVEL_TEXT = 'work in progress'
-LEVEL_NOTE = 'work in progress'
-NOT_APPLICABLE = 'contracts under construction'
+EXPLANATION = ('Step relations of the SSA, delay and volume simulators (state changes only by a column of U+D, or of D at delivery); safe interface: table view of consumed '
+               'species, sentinel inside the allocated row, propensity > 0 implies every consumed species is present in the needed amount (all propensity types); '
+               'lemmas: lattice step, lin-update induction, falling-factorial positivity, conservation step.')
+LEVEL_TEXT = 'Deductive proof of the per-step facts on the real loop bodies and of the safe-interface guard for any network; trajectory-level corollaries by (stated) induction.'
+LEVEL_NOTE = 'See assumptions; delay-volume simulator not under contract (unreachable from the entry point, see C07).'
+_HERE = os.path.dirname(os.path.dirname(os.path.abspath(__file__)))
+
+
+def _sweep(seed, rec):
+    src = open(os.path.join(_HERE, 'native', 'C06_sweep.py')).read()
+    return src.replace("json.loads(sys.argv[1]) if len(sys.argv) > 1 else {}", repr(dict(seed=seed)))
+
+
+NATIVE_SWEEPS = {'*': _sweep}
